@@ -72,7 +72,7 @@ Definition sp_apply (dom : list Z) (n : Z) (isc : Z -> bool) (L : lists) (o : op
       | [] => L
       | x0 :: _ =>
           let target := match par with Some p => Some p | None => sp_container dom L x0 end in
-          let L2 := sp_move_all dom L xs n in
+          let L2 := sp_move_all (dom ++ [n]) L xs n in     (* the new group exists while the layers move *)
           match target with
           | Some p => if isc p then updL L2 p (L2 p ++ [n]) else L2
           | None => L2
